@@ -6,7 +6,7 @@ from fractions import Fraction
 
 from .sfx import KINDS
 
-MAXDEN = 10 ** 6
+MAXDEN = 10 ** 9
 
 
 class Unrecoverable(Exception):
